@@ -56,19 +56,20 @@ theorem reduce_keeps (s : St) (p : Nat) (la : Option Nat) :
           · exact ⟨rfl, rfl, rfl, rfl⟩
           · split <;> exact ⟨rfl, rfl, rfl, rfl⟩
 
-/-- while no recovery has run: the text's tokens are the shifted ones, the pending lookahead, and the rest -/
-def HInv (w0 : List Nat) (s : St) (pending : List Nat) : Prop :=
-  s.recovered = false → ∃ rest, LexCols T s.input s.pos rest ∧ w0 = s.hist ++ pending ++ rest
+/-- while no recovery has run, `Q` holds of the tokens read so far (shifted ones and the pending
+    lookahead) and the current lexer position -/
+def HInv (Q : List Nat → List Char → Nat → Prop) (s : St) (pending : List Nat) : Prop :=
+  s.recovered = false → Q (s.hist ++ pending) s.input s.pos
 
 /-- what matters at the end -/
-def HEnd (w0 : List Nat) (s : St) (o : Outcome) : Prop :=
-  ∀ v, o = .accept v → s.recovered = false → s.hist = w0
+def HEnd (Final : List Nat → Prop) (s : St) (o : Outcome) : Prop :=
+  ∀ v, o = .accept v → s.recovered = false → Final s.hist
 
-theorem reduceOnError_h (hE : ErrColOk T) (la : Option Token) (w0 pending : List Nat) :
-    ∀ (fuel : Nat) (s : St), HInv T w0 s pending →
+theorem reduceOnError_h (hE : ErrColOk T) (la : Option Token) (Q : List Nat → List Char → Nat → Prop) (pending : List Nat) :
+    ∀ (fuel : Nat) (s : St), HInv Q s pending →
       match reduceOnError T env la s fuel with
       | (s', some o) => ∀ v, o ≠ .accept v
-      | (s', none) => HInv T w0 s' pending := by
+      | (s', none) => HInv Q s' pending := by
   intro fuel
   induction fuel with
   | zero => intro s _; unfold reduceOnError; intro v h; cases h
@@ -96,8 +97,9 @@ theorem reduceOnError_h (hE : ErrColOk T) (la : Option Token) (w0 pending : List
           dsimp only at hk ⊢
           refine ih s' ?_
           intro hrec
-          obtain ⟨rest, h1, h2⟩ := h (by rw [← hk.2.1]; exact hrec)
-          exact ⟨rest, by rw [hk.2.2.1, hk.2.2.2]; exact h1, by rw [hk.1]; exact h2⟩
+          have := h (by rw [← hk.2.1]; exact hrec)
+          rw [hk.1, hk.2.2.1, hk.2.2.2]
+          exact this
 
 theorem nextToken_keeps (s : St) :
     (nextToken T s).1.hist = s.hist ∧ (nextToken T s).1.recovered = s.recovered ∧ (nextToken T s).1.states = s.states := by
@@ -179,15 +181,15 @@ theorem recoverPush_h (error : ParseErr) (n : Nat) (s : St) (top : Nat) (la : Op
     cases la <;> cases col <;> first | rfl | (intro v h; cases h)
 
 /-- after `error_recovery` the flag is set, or the run ended without accepting -/
-theorem errorRecovery_h (hE : ErrColOk T) (w0 pending : List Nat) (s : St) (la : Option Token) (col : Option Nat)
-    (fuel : Nat) (h : HInv T w0 s pending) :
+theorem errorRecovery_h (hE : ErrColOk T) (Q : List Nat → List Char → Nat → Prop) (pending : List Nat) (s : St)
+    (la : Option Token) (col : Option Nat) (fuel : Nat) (h : HInv Q s pending) :
     match errorRecovery T env s la col fuel with
     | (s', .found _ _) => s'.recovered = true
     | (s', .eof) => s'.recovered = true
     | (_, .done o) => ∀ v, o ≠ .accept v := by
   unfold errorRecovery
   dsimp only
-  have h1 := reduceOnError_h T env hE la w0 pending fuel s h
+  have h1 := reduceOnError_h T env hE la Q pending fuel s h
   revert h1
   cases reduceOnError T env la s fuel with
   | mk s1 oo =>
@@ -322,20 +324,14 @@ theorem parseEof_rec : ∀ (fuel : Nat) (s : St), s.recovered = true → (parseE
         | done o => exact id
         | eof => intro h1; exact ih s' h1
 
-theorem hinv_of_eq {w0 : List Nat} {s : St} (h : s.recovered = false → w0 = s.hist)
-    (hl : ∃ rest, LexCols T s.input s.pos rest ∧ rest = []) : HInv T w0 s [] := by
-  intro hrec
-  obtain ⟨rest, h1, h2⟩ := hl
-  exact ⟨rest, h1, by rw [h2, h hrec]; simp⟩
-
-theorem parseEof_h (hE : ErrColOk T) (w0 : List Nat) :
-    ∀ (fuel : Nat) (s : St), (s.recovered = false → w0 = s.hist) → LexCols T s.input s.pos [] →
-      HEnd w0 (parseEof T env s fuel).1 (parseEof T env s fuel).2 := by
+theorem parseEof_h (hE : ErrColOk T) (Final : List Nat → Prop) :
+    ∀ (fuel : Nat) (s : St), (s.recovered = false → Final s.hist) →
+      HEnd Final (parseEof T env s fuel).1 (parseEof T env s fuel).2 := by
   intro fuel
   induction fuel with
-  | zero => intro s _ _; unfold parseEof; intro v h; cases h
+  | zero => intro s _; unfold parseEof; intro v h; cases h
   | succ f ih =>
-    intro s h hl
+    intro s h
     unfold parseEof
     cases hr : asReduce (eofActionAt T (topState s)) with
     | some r =>
@@ -350,18 +346,17 @@ theorem parseEof_h (hE : ErrColOk T) (w0 : List Nat) :
           dsimp only at hk ⊢
           intro v _ hrec
           rw [hk.1]
-          exact (h (by rw [← hk.2.1]; exact hrec)).symm
+          exact h (by rw [← hk.2.1]; exact hrec)
         | none =>
           intro hk
           dsimp only at hk ⊢
-          refine ih s' ?_ ?_
-          · intro hrec
-            rw [hk.1]
-            exact h (by rw [← hk.2.1]; exact hrec)
-          · rw [hk.2.2.1, hk.2.2.2]; exact hl
+          refine ih s' ?_
+          intro hrec
+          rw [hk.1]
+          exact h (by rw [← hk.2.1]; exact hrec)
     | none =>
       dsimp only
-      have h1 := errorRecovery_h T env hE w0 [] s none none f (hinv_of_eq T h ⟨[], hl, rfl⟩)
+      have h1 := errorRecovery_h T env hE (fun w _ _ => Final w) [] s none none f (by intro hrec; simpa using h hrec)
       revert h1
       cases hres : errorRecovery T env s none none f with
       | mk s' r =>
@@ -371,7 +366,6 @@ theorem parseEof_h (hE : ErrColOk T) (w0 : List Nat) :
         | eof =>
           intro hrec
           dsimp only
-          -- after a recovery the flag is set for good: the conclusion is vacuous
           intro v hv hrec'
           exfalso
           have := parseEof_rec T env f s' hrec
@@ -412,11 +406,11 @@ theorem parseInner_rec : ∀ (fuel : Nat) (s : St) (la : Token) (col : Nat), s.r
           | eof => intro h1; exact parseEof_rec T env f s' h1
           | done o => exact id
 
-theorem parseInner_h (hE : ErrColOk T) (w0 : List Nat) :
-    ∀ (fuel : Nat) (s : St) (la : Token) (col : Nat), HInv T w0 s [col] →
+theorem parseInner_h (hE : ErrColOk T) (Q : List Nat → List Char → Nat → Prop) (Final : List Nat → Prop) :
+    ∀ (fuel : Nat) (s : St) (la : Token) (col : Nat), HInv Q s [col] →
       match parseInner T env s la col fuel with
-      | (s', .inl ()) => HInv T w0 s' []
-      | (s', .inr o) => HEnd w0 s' o := by
+      | (s', .inl ()) => HInv Q s' []
+      | (s', .inr o) => HEnd Final s' o := by
   intro fuel
   induction fuel with
   | zero => intro s la col _; unfold parseInner; intro v h; cases h
@@ -428,8 +422,8 @@ theorem parseInner_h (hE : ErrColOk T) (w0 : List Nat) :
     | some target =>
       dsimp only
       intro hrec
-      obtain ⟨rest, h1, h2⟩ := h hrec
-      exact ⟨rest, h1, by rw [h2]; simp⟩
+      have := h hrec
+      simpa using this
     | none =>
       dsimp only
       cases asReduce (actionAt T (topState s) col) with
@@ -448,11 +442,12 @@ theorem parseInner_h (hE : ErrColOk T) (w0 : List Nat) :
             dsimp only at hk ⊢
             refine ih s' la col ?_
             intro hrec
-            obtain ⟨rest, h1, h2⟩ := h (by rw [← hk.2.1]; exact hrec)
-            exact ⟨rest, by rw [hk.2.2.1, hk.2.2.2]; exact h1, by rw [hk.1]; exact h2⟩
+            have := h (by rw [← hk.2.1]; exact hrec)
+            rw [hk.1, hk.2.2.1, hk.2.2.2]
+            exact this
       | none =>
         dsimp only
-        have h1 := errorRecovery_h T env hE w0 [col] s (some la) (some col) f h
+        have h1 := errorRecovery_h T env hE Q [col] s (some la) (some col) f h
         revert h1
         cases errorRecovery T env s (some la) (some col) f with
         | mk s' r =>
@@ -485,8 +480,11 @@ theorem parseInner_h (hE : ErrColOk T) (w0 : List Nat) :
                 rw [hm] at hrec'
                 cases hrec'
 
-theorem parseLoop_h (hE : ErrColOk T) (w0 : List Nat) :
-    ∀ (fuel : Nat) (s : St), HInv T w0 s [] → HEnd w0 (parseLoop T env s fuel).1 (parseLoop T env s fuel).2 := by
+theorem parseLoop_h (hE : ErrColOk T) (Q : List Nat → List Char → Nat → Prop) (Final : List Nat → Prop)
+    (hstep : ∀ w i p t r c, Q w i p → Lexer.next T.lex (i.length + 1) i p = .token t r → T.tokToCol.lookup t.index = some c →
+      Q (w ++ [c]) r t.stop)
+    (hfin : ∀ w i p, Q w i p → Lexer.next T.lex (i.length + 1) i p = .eof → Final w) :
+    ∀ (fuel : Nat) (s : St), HInv Q s [] → HEnd Final (parseLoop T env s fuel).1 (parseLoop T env s fuel).2 := by
   intro fuel
   induction fuel with
   | zero => intro s _; unfold parseLoop; intro v h; cases h
@@ -496,12 +494,11 @@ theorem parseLoop_h (hE : ErrColOk T) (w0 : List Nat) :
     cases hn : Lexer.next T.lex (s.input.length + 1) s.input s.pos with
     | eof =>
       dsimp only
-      refine parseEof_h T env hE w0 f s ?_ (LexCols.eof hn)
+      refine parseEof_h T env hE Final f s ?_
       intro hrec
-      obtain ⟨rest, h1, h2⟩ := h hrec
-      have := lexCols_fun T h1 (LexCols.eof hn)
-      subst this
-      simpa using h2
+      have := h hrec
+      simp only [List.append_nil] at this
+      exact hfin _ _ _ this hn
     | invalid l => dsimp only; intro v hv; cases hv
     | token t r =>
       dsimp only
@@ -509,18 +506,12 @@ theorem parseLoop_h (hE : ErrColOk T) (w0 : List Nat) :
       | none => dsimp only; intro v hv; cases hv
       | some c =>
         dsimp only
-        have hinv : HInv T w0 { s with input := r, pos := t.stop, last := t.stop } [c] := by
+        have hinv : HInv Q { s with input := r, pos := t.stop, last := t.stop } [c] := by
           intro hrec
-          obtain ⟨rest, h1, h2⟩ := h hrec
-          cases h1 with
-          | eof hn' => rw [hn] at hn'; cases hn'
-          | tok hn' hc' hr' =>
-            rw [hn] at hn'
-            cases hn'
-            rw [hc] at hc'
-            cases hc'
-            exact ⟨_, hr', by rw [h2]; simp⟩
-        have hi := parseInner_h T env hE w0 f _ t c hinv
+          have := h hrec
+          simp only [List.append_nil] at this
+          exact hstep _ _ _ t r c this hn hc
+        have hi := parseInner_h T env hE Q Final f _ t c hinv
         revert hi
         cases parseInner T env { s with input := r, pos := t.stop, last := t.stop } t c f with
         | mk s' x =>
@@ -533,7 +524,50 @@ theorem hist_is_text (hE : ErrColOk T) (text : List Char) (w0 : List Nat) (fuel 
     (hl : LexCols T text 0 w0)
     (ha : (parseLoop T env { input := text } fuel).2 = .accept v)
     (hr : (parseLoop T env { input := text } fuel).1.recovered = false) :
-    (parseLoop T env { input := text } fuel).1.hist = w0 :=
-  parseLoop_h T env hE w0 fuel { input := text } (fun _ => ⟨w0, hl, by simp⟩) v ha hr
+    (parseLoop T env { input := text } fuel).1.hist = w0 := by
+  refine parseLoop_h T env hE (fun w i p => ∃ rest, LexCols T i p rest ∧ w0 = w ++ rest) (fun w => w = w0) ?_ ?_ fuel
+    { input := text } (fun _ => ⟨w0, hl, by simp⟩) v ha hr
+  · rintro w i p t r c ⟨rest, h1, h2⟩ hn hc
+    cases h1 with
+    | eof hn' => rw [hn] at hn'; cases hn'
+    | tok hn' hc' hr' =>
+      rw [hn] at hn'
+      cases hn'
+      rw [hc] at hc'
+      cases hc'
+      exact ⟨_, hr', by rw [h2]; simp⟩
+  · rintro w i p ⟨rest, h1, h2⟩ hn
+    have := lexCols_fun T h1 (LexCols.eof hn)
+    subst this
+    simpa using h2.symm
+
+/-- the tokens from `(i, p)` up to `(i', p')` have these columns -/
+inductive LexPre : List Char → Nat → List Nat → List Char → Nat → Prop
+  | refl {i : List Char} {p : Nat} : LexPre i p [] i p
+  | tok {i : List Char} {p : Nat} {t : Token} {r : List Char} {c : Nat} {w : List Nat} {i' : List Char} {p' : Nat} :
+      Lexer.next T.lex (i.length + 1) i p = .token t r → T.tokToCol.lookup t.index = some c →
+      LexPre r t.stop w i' p' → LexPre i p (c :: w) i' p'
+
+theorem LexPre.snoc {i : List Char} {p : Nat} {w : List Nat} {i' : List Char} {p' : Nat} (h : LexPre T i p w i' p')
+    {t : Token} {r : List Char} {c : Nat} (hn : Lexer.next T.lex (i'.length + 1) i' p' = .token t r)
+    (hc : T.tokToCol.lookup t.index = some c) : LexPre T i p (w ++ [c]) r t.stop := by
+  induction h with
+  | refl => exact LexPre.tok hn hc LexPre.refl
+  | tok hn' hc' _ ih => exact LexPre.tok hn' hc' (ih hn)
+
+theorem LexPre.finish {i : List Char} {p : Nat} {w : List Nat} {i' : List Char} {p' : Nat} (h : LexPre T i p w i' p')
+    (hn : Lexer.next T.lex (i'.length + 1) i' p' = .eof) : LexCols T i p w := by
+  induction h with
+  | refl => exact LexCols.eof hn
+  | tok hn' hc' _ ih => exact LexCols.tok hn' hc' (ih hn)
+
+/-- **an accepting run without error recovery has lexed the whole text**, to the tokens it shifted -/
+theorem accepted_lexcols (hE : ErrColOk T) (text : List Char) (fuel : Nat) (v : Val)
+    (ha : (parseLoop T env { input := text } fuel).2 = .accept v)
+    (hr : (parseLoop T env { input := text } fuel).1.recovered = false) :
+    LexCols T text 0 (parseLoop T env { input := text } fuel).1.hist :=
+  parseLoop_h T env hE (fun w i p => LexPre T text 0 w i p) (fun w => LexCols T text 0 w)
+    (fun _ _ _ _ _ _ h hn hc => h.snoc T hn hc) (fun _ _ _ h hn => h.finish T hn) fuel
+    { input := text } (fun _ => LexPre.refl) v ha hr
 
 end Aidl.Props.LrHist
